@@ -2,15 +2,20 @@
    Statements only; proofs in Proofs/LoaderProofs.v.  What is proved here is the
    framing half (see the evidence/notes for what remains correspondence-only:
    validator = specification decoder). *)
-From DV Require Import Lib.Base Wire.Body Wire.Message Spec.Codec Wire.HeaderEdit Proofs.LoaderProofs Proofs.CodecWf Proofs.CodecRoundtrip Proofs.BodyVbEq Proofs.BodyCursor Proofs.BodyComplete Proofs.CodecMessage Proofs.LoaderComplete.
+From DV Require Import Lib.Base Wire.Body Wire.Message Spec.Codec Wire.HeaderEdit Proofs.LoaderProofs Proofs.CodecWf Proofs.CodecRoundtrip Proofs.BodyVbEq Proofs.BodyCursor Proofs.BodyComplete Proofs.CodecMessage Proofs.LoaderComplete Proofs.BodyLocal Proofs.Utf8Proofs Proofs.BodySound Proofs.LoaderSound.
 From Coq Require Import ZArith.
 Local Open Scope N_scope.
 
 (* Full statement (soundness + completeness against the specification decoder),
    kept visible.  COMPLETENESS is proved below (C01_complete, C01_demarshal_complete,
-   with C02_roundtrip); SOUNDNESS (whatever the loader accepts is the encoding of a
-   well-formed message) is decided per generated case by the correspondence run with
-   the extracted [spec_decode_message] as oracle, not yet by a theorem. *)
+   with C02_roundtrip).  SOUNDNESS is proved below too (C01_sound, C01_sound_decodes):
+   whatever the loader model accepts IS the canonical serialisation of an abstract
+   message, which is well-formed per the specification except in exactly three
+   recorded classes where the faithful model (and the C code) accepts more than the
+   specification: degenerate unique names in DESTINATION/SENDER (F2), signature
+   array nesting counted over consecutive 'a' only (F11), and elements of a
+   fixed-size array at container depth 64 not counted as a level (FD65).  The
+   unrestricted statement is refuted by witnesses for each class. *)
 Definition C01_full_statement : Prop :=
   forall d, 16 <= nlen d ->
     match demarshal d, spec_decode_message d with
@@ -101,6 +106,53 @@ Theorem C01_demarshal_complete : forall m rest,
     m_header (loaded_msg m hs) ++ m_body (loaded_msg m hs) = spec_encode_message m.
 Proof. exact demarshal_complete. Qed.
 Print Assumptions C01_demarshal_complete.
+
+(* SOUNDNESS of the loader model *)
+Theorem C01_sound : forall max le fl hl bl fds d msg,
+  max <= max_message -> all_bytes d = true ->
+  have_message max d = HaveOk le fl hl bl true ->
+  load_message le fl hl bl fds d = inl msg ->
+  exists m, m_header msg ++ m_body msg = spec_encode_message m /\ s_le m = le /\
+            nlen (spec_encode_message m) = hl + bl /\
+            wire_ok (fields_val le (s_fields m)) = true /\ forallb wire_ok (s_body m) = true /\
+            (msg_strict m = true -> wf_msg m = true).
+Proof. exact load_message_sound. Qed.
+Print Assumptions C01_sound.
+
+(* the exclusion is exact: a message is well-formed per the specification iff it is outside the three classes *)
+Theorem C01_sound_exclusion_exact : forall max le fl hl bl fds d msg,
+  max <= max_message -> all_bytes d = true ->
+  have_message max d = HaveOk le fl hl bl true ->
+  load_message le fl hl bl fds d = inl msg ->
+  exists m, m_header msg ++ m_body msg = spec_encode_message m /\ (wf_msg m = true <-> msg_strict m = true).
+Proof. exact load_message_sound_iff. Qed.
+Print Assumptions C01_sound_exclusion_exact.
+
+(* ... and then the specification decoder returns exactly that message *)
+Theorem C01_sound_decodes : forall max le fl hl bl fds d msg,
+  max <= max_message -> all_bytes d = true ->
+  have_message max d = HaveOk le fl hl bl true ->
+  load_message le fl hl bl fds d = inl msg ->
+  exists m, m_header msg ++ m_body msg = spec_encode_message m /\
+            (msg_strict m = true -> wf_msg m = true /\ spec_decode_message (m_header msg ++ m_body msg) = Some (m, hl + bl)).
+Proof. exact load_message_decodes. Qed.
+Print Assumptions C01_sound_decodes.
+
+Theorem C01_sound_refuted_F2 : ~ load_message_sound_unrestricted.
+Proof. exact load_message_sound_unrestricted_refuted. Qed.
+Theorem C01_sound_refuted_FD65 : ~ load_message_sound_unrestricted.
+Proof. exact load_message_sound_unrestricted_refuted_FD65. Qed.
+Theorem C01_sound_refuted_F11 : ~ load_message_sound_unrestricted.
+Proof. exact load_message_sound_unrestricted_refuted_F11. Qed.
+
+(* value level: whatever the body validator model accepts is the canonical encoding of a value *)
+Theorem C01_value_sound : forall le d t depth c c',
+  wfc c -> all_bytes (cdat c) = true -> tygood t = true -> depth <= max_value_depth ->
+  vb le d t depth c = inl c' ->
+  exists v, ty_of_val v = t /\ wfx le depth (cpos c) v = true /\ wire_ok v = true /\
+            cdat c = enc le v (cpos c) ++ cdat c' /\ cpos c' = cpos c + nlen (enc le v (cpos c)) /\ wfc c'.
+Proof. exact vb_sound. Qed.
+Print Assumptions C01_value_sound.
 
 Definition ex_val : val :=
   VStruct [VNum 121 5; VArr (TBasic 98) [VNum 98 1; VNum 98 0]; VArr (TBasic 120) [VNum 120 7]; VArr (TDict 115 TVariant) [VDictE (VStr 115 [107]) (VVar (TArray (TBasic 115)) (VArr (TBasic 115) [VStr 115 [97]; VStr 115 []]))];
